@@ -7,10 +7,16 @@
 #
 REPO ?= /repo
 V    ?= asan
-B    := build/$(V)
+# builds of another tree (VERIF_REPO=/some/copy, used to try mutants) live in their own directory
+ifeq ($(REPO),/repo)
+BROOT := build
+else
+BROOT := build/alt/$(shell echo $(REPO) | md5sum | cut -c1-10)
+endif
+B    := $(BROOT)/$(V)
 CXX  := g++
 
-INCS := -I$(REPO)/SparseGrids -Ibuild/config -I$(REPO)/InterfaceTPL -I$(REPO)/DREAM \
+INCS := -I$(REPO)/SparseGrids -I$(BROOT)/config -I$(REPO)/InterfaceTPL -I$(REPO)/DREAM \
         -I$(REPO)/DREAM/Optimization -I$(REPO)/Addons -I$(REPO)/Config -I$(REPO)/Tasgrid -Iengines/common
 
 # the guard is defined for completeness: no source hook exists in the repository (MANIFEST.hooks)
@@ -45,26 +51,20 @@ vpath %.cpp $(sort $(dir $(LIBSRC)))
 .PHONY: setup lib all-harness config clean
 .SECONDARY:
 
-config: build/config/TasmanianConfig.hpp build/config/tasgridLogs.hpp
+config: $(BROOT)/config/TasmanianConfig.hpp $(BROOT)/config/tasgridLogs.hpp
 
-# REPO is recorded so that pointing the build at another tree forces a rebuild
-build/config/repo.stamp: FORCE
-	@mkdir -p build/config
-	@if [ "`cat $@ 2>/dev/null`" != "$(REPO)" ]; then rm -rf build/asan build/plain build/omp build/ompt build/tsan build/inst; echo "$(REPO)" > $@; fi
-FORCE:
-
-build/config/TasmanianConfig.hpp: $(REPO)/Config/TasmanianConfig.in.hpp build/config/repo.stamp
-	@mkdir -p build/config
+$(BROOT)/config/TasmanianConfig.hpp: $(REPO)/Config/TasmanianConfig.in.hpp
+	@mkdir -p $(BROOT)/config
 	sed -e 's/@Tasmanian_VERSION_MAJOR@/8/g' -e 's/@Tasmanian_VERSION_MINOR@/2/g' \
 	    -e 's/@Tasmanian_version_comment@/ (development)/' -e 's/@Tasmanian_license@/BSD 3-Clause with UT-Battelle disclaimer/' \
 	    -e 's/@Tasmanian_git_hash@/verif/' -e 's/@Tasmanian_cxx_flags@/verif/' \
 	    -e 's,^#cmakedefine \(.*\),/* #undef \1 */,' $< > $@
 
-build/config/tasgridLogs.hpp: $(REPO)/Tasgrid/tasgridLogs.in.hpp build/config/repo.stamp
-	@mkdir -p build/config
+$(BROOT)/config/tasgridLogs.hpp: $(REPO)/Tasgrid/tasgridLogs.in.hpp
+	@mkdir -p $(BROOT)/config
 	sed -e 's/@[A-Za-z_]*@/verif/g' $< > $@
 
-$(B)/lib/%.o: %.cpp build/config/TasmanianConfig.hpp build/config/tasgridLogs.hpp
+$(B)/lib/%.o: %.cpp $(BROOT)/config/TasmanianConfig.hpp $(BROOT)/config/tasgridLogs.hpp
 	@mkdir -p $(B)/lib
 	$(CXX) $(CXXFLAGS) -MMD -MP -c $< -o $@
 
